@@ -154,6 +154,15 @@ def run(tier, seed):
     do_source('S4-erachains', text4, sorted(labels4), [(2000, 2050)] + ([(2006, 2040)] if thorough else []),
               labels=labels4, arduino=({'step': 900, 'win': 3 * 3600} if thorough else {'step': 3600, 'win': 2 * 3600}))
     samples += [{'era_chain': labels4[z][2], 'source_text': labels4[z][3]} for z in sorted(labels4)[200:202]]
+    # ---- S5: one transition close to the year boundary (UTC-year keyed cache of the basic processor), exhaustive product
+    edge = mutants.year_boundary()
+    kept5, rej5 = zic_filter([(i, c[3]) for i, c in enumerate(edge)], 'S5')
+    kept5set = {k for k, _ in kept5}
+    cov['year_edge_zones'] = len(kept5set); cov['year_edge_rejected_by_zic'] = len(rej5)
+    labels5 = {c[4]: (c[0], c[1], c[2], c[3]) for i, c in enumerate(edge) if i in kept5set}
+    text5 = '\n'.join(c[3] for i, c in enumerate(edge) if i in kept5set) + '\n'
+    do_source('S5-yearedge', text5, sorted(labels5), [(2000, 2050)],
+              labels=labels5, arduino=({'step': 900, 'win': 3 * 3600} if thorough else {'step': 3600, 'win': 2 * 3600}))
     samples += [{'mutant': labels[z][2], 'seed': labels[z][0], 'source_text': labels[z][3]} for z in sorted(labels)[100:103]]
     rep.coverage.update(cov)
     rep.assumptions += [
